@@ -4,7 +4,6 @@ from ..world import World
 from .. import netlab as nl
 from ..ref.C16_cov import CovRef, LIVE, BOUNDARY, DEAD, NONE
 
-from bacpypes.pdu import Address
 from bacpypes.object import (IntegerValueObject, AnalogValueObject, BinaryValueObject,
                              MultiStateValueObject, PulseConverterObject)
 from bacpypes.primitivedata import Integer, Real, Unsigned
